@@ -10,7 +10,7 @@
                      representation builder (LRepr), starting from the zero value
      step / run      histories of Wrap / Prototype+build / Marshal / Unmarshal calls over the registry
 
-   Confirmed defects of the pinned tree are modelled as they are; three of them are switches of the
+   Confirmed defects of the pinned tree are modelled as they are; four of them are switches of the
    [quirks] record so that the repaired behaviour is obtained by flipping them. *)
 Require Import IP.Base.Bytes IP.DM.Value IP.Bind.GoVal.
 Open Scope N_scope.
@@ -18,10 +18,13 @@ Open Scope N_scope.
 Record quirks := {
   q_reuse_registered : bool;  (* inferSchema reuses an already registered name instead of panicking *)
   q_range_check : bool;       (* AssignInt / assignUInt refuse values that do not fit the Go type *)
-  q_uint_kind : bool          (* newNode treats reflect.Uint like reflect.Uint64 (values >= 2^63 readable) *)
+  q_uint_kind : bool;         (* newNode treats reflect.Uint like reflect.Uint64 (values >= 2^63 readable) *)
+  q_ptr_uint : bool           (* AssignInt / assignUInt look at the kind behind a pointer, not at the pointer *)
 }.
-Definition pinned : quirks := {| q_reuse_registered := false; q_range_check := false; q_uint_kind := false |}.
-Definition repaired : quirks := {| q_reuse_registered := true; q_range_check := true; q_uint_kind := true |}.
+Definition pinned : quirks :=
+  {| q_reuse_registered := false; q_range_check := false; q_uint_kind := false; q_ptr_uint := false |}.
+Definition repaired : quirks :=
+  {| q_reuse_registered := true; q_range_check := true; q_uint_kind := true; q_ptr_uint := true |}.
 
 Inductive level := LType | LRepr.
 
@@ -562,7 +565,8 @@ Section Asm.
     match target with
     | SInt k =>
         let big := (two63z <=? z)%Z in
-        let is_u := match s with SInt k' => ik_unsigned k' | _ => false end in
+        let is_u := if q_ptr_uint q then ik_unsigned k
+                    else match s with SInt k' => ik_unsigned k' | _ => false end in
         if is_u then
           if (z <? 0)%Z then Err XNegUint
           else if q_range_check q && negb (ik_in k z) then Err XRange
